@@ -178,3 +178,10 @@ Theorem C19_hooks_run_in_serving_precision :
   In ("after_step", Serving) hook_observations /\ In ("after_run", Serving) hook_observations /\
   forall h m, In (h, m) hook_observations -> (h = "after_step" \/ h = "after_run") -> m = Serving.
 Proof. exact SnapshotTie.hooks_run_in_serving_precision. Qed.
+(* which snapshot a start resumes from: run_dir/latest before load_model before init_weights, read from the
+   regenerated branch structure of load_or_init_model *)
+Theorem C19_resume_precedence_tie :
+  (forall lm, choose_branch true lm true = Some ALoadState) /\
+  (forall rd ex, rd && ex = false -> choose_branch rd true ex = Some ALoadInitial) /\
+  (forall rd ex, rd && ex = false -> choose_branch rd false ex = Some AInitWeights).
+Proof. exact SnapshotTie.resume_precedence_tie. Qed.
